@@ -190,6 +190,7 @@ func writeEvidence(prop, tier string, seed int64, st *stats, rn *runner, variant
 		"variants":             vnames,
 		"plans_per_variant":    st.perVariant,
 		"known_findings_hit":   known,
+		"inconclusive_unreproduced_observation_differences": st.unstable,
 		"real_components":      []string{"all of go-json (built from /repo's working tree)", "Go runtime, garbage collector, race detector (race variants)"},
 		"stub_components":      stubText(vnames),
 		"exhaustive":           false,
